@@ -179,6 +179,8 @@ pub struct DevInner {
     pub hi_write: u64,
     /// an access tried to go past the device end
     pub past_end: bool,
+    /// accept writes but do not store them (mount-only experiments on a shared base image)
+    pub discard_writes: bool,
 }
 
 #[derive(Clone)]
@@ -218,6 +220,7 @@ impl MemDev {
             hi_read: 0,
             hi_write: 0,
             past_end: false,
+            discard_writes: false,
         })))
     }
     pub fn dense(bytes: Vec<u8>) -> MemDev {
@@ -338,7 +341,9 @@ impl fatfs::Write for MemDev {
         if n < buf.len() {
             d.past_end = true;
         }
-        d.store.write_at(pos, &buf[..n]);
+        if !d.discard_writes {
+            d.store.write_at(pos, &buf[..n]);
+        }
         if d.log_data {
             d.wlog.push((pos, buf[..n].to_vec()));
         }
